@@ -918,7 +918,7 @@ impl Engine for C18 {
     }
     fn bound(&self, tier: Tier) -> String {
         match tier {
-            Tier::Quick => format!("every 2-note library with <= 2 blocks per note over {{#T, ##S, p, >1, >2, >9}} reached from every library that differs in one note (Database::update_document and didChange); 1 note: <= 3 blocks over {{#T, ##S, p, >1, >9, #Dup, # (empty), heading in list item, heading in quote}}; 2 notes: note 1 <= 3 blocks over the same alphabet with >1,>2, note 2 <= 2 blocks, and both notes <= 3 blocks over {{#T, ##S, p, >1, >2, >9}}; plus {} libraries with > 100 headings / graded reference counts", cap_libs().len()),
+            Tier::Quick => format!("3 notes with <= 2 blocks each over {{#T, p, >1, >2, >3}}; every 2-note library with <= 2 blocks per note over {{#T, ##S, p, >1, >2, >9}} reached from every library that differs in one note (Database::update_document and didChange); 1 note: <= 3 blocks over {{#T, ##S, p, >1, >9, #Dup, # (empty), heading in list item, heading in quote}}; 2 notes: note 1 <= 3 blocks over the same alphabet with >1,>2, note 2 <= 2 blocks, and both notes <= 3 blocks over {{#T, ##S, p, >1, >2, >9}}; plus {} libraries with > 100 headings / graded reference counts", cap_libs().len()),
             Tier::Thorough => format!("2-note libraries reached by editing one note (edited note <= 3 blocks before or after, the other <= 2); 1 note: <= 4 blocks; 2 notes: <= 3 blocks each over the full alphabet; 3 notes: <= 2 blocks each over {{#T, ##S, p, >1, >2, >3, >9}} and note 1 <= 3 blocks; plus {} libraries with > 100 headings / graded reference counts", cap_libs().len()),
         }
     }
@@ -974,6 +974,19 @@ impl Engine for C18 {
                         if o != y {
                             emit(&format!("{}|{}~>{}|{}", x, o, x, y));
                         }
+                    }
+                }
+            }
+        }
+        if !thorough {
+            // 3 notes, <= 2 blocks each over {#T, p, >1, >2, >3}: inclusion chains through a middle note
+            let sym = ["#T", "p", ">1", ">2", ">3"];
+            let mk = |key: usize| -> Vec<String> { seqs(&sym, 2).iter().map(|sh| note_spec(key, sh)).collect() };
+            let (a, b, c) = (mk(1), mk(2), mk(3));
+            for x in &a {
+                for y in &b {
+                    for z in &c {
+                        emit(&format!("{}|{}|{}", x, y, z));
                     }
                 }
             }
